@@ -229,9 +229,9 @@ void root() {
   static const struct { int call, err; } fails[] = {{kern::SC_SOCKET, EMFILE}, {kern::SC_SHM_OPEN, ENFILE}, {kern::SC_SHM_OPEN, EACCES}, {kern::SC_FTRUNCATE, ENOSPC}, {kern::SC_FSTAT, EIO},
                                                     {kern::SC_MMAP, ENOMEM}, {kern::SC_SEM_OPEN, ENOSPC}, {kern::SC_FOPEN, EMFILE}, {kern::SC_OPENDIR, EMFILE}, {kern::SC_DLOPEN, 1},
                                                     {kern::SC_ACCEPT, ECONNABORTED}, {kern::SC_BIND, EADDRINUSE}, {kern::SC_LISTEN, EADDRINUSE}, {kern::SC_SETSOCKOPT, ENOPROTOOPT}, {kern::SC_SEM_OPEN, EACCES},
-                                                    {kern::SC_CONNECT, ENETUNREACH}, {kern::SC_CONNECT, ECONNREFUSED}};
+                                                    {kern::SC_CONNECT, ENETUNREACH}, {kern::SC_CONNECT, ECONNREFUSED}, {kern::SC_FCNTL, EINVAL}, {kern::SC_FCNTL, ENOLCK}, {kern::SC_GETSOCKOPT, ENOBUFS}, {kern::SC_GETSOCKNAME, ENOBUFS}};
   describe("allocfail_p=%.2f plans=", cfg().p[ST_ALLOC]);
-  for (int i = 0; i < nplans; i++) { auto &f = fails[gen(17)]; int kth = 1 + (int)gen(4); kern::plan_fail(f.call, kth, f.err); describe("%s#%d->%d ", kern::call_names[f.call], kth, f.err); }
+  for (int i = 0; i < nplans; i++) { auto &f = fails[gen(21)]; int kth = 1 + (int)gen(f.call == kern::SC_FCNTL ? 12 : 4); kern::plan_fail(f.call, kth, f.err); describe("%s#%d->%d ", kern::call_names[f.call], kth, f.err); }
   if (gen(6) == 0) { shim::fail_create_kth = 1 + (int)gen(3); describe("pthread_create#%d ", shim::fail_create_kth); }
   if (gen(8) == 0) { shim::fail_key_create_kth = 1 + (int)gen(3); describe("key_create#%d ", shim::fail_key_create_kth); }
   int steps = (int)gen_range(5, tier ? 60 : 40);
